@@ -225,7 +225,7 @@ requester whose publisher fails emits ERROR, and a later `request(n)` of its sub
 emits REQUEST_N on the same stream -/
 theorem c08_half_close_counterexample :
     (run (init 1) [.requestChannel [1] 3 true true, .pubError 0, .subRequest 0 5]).2 =
-      [[.created 0 1, .pubSubscribe 0, .onSubscribe 0, .send { ty := .requestChannel, sid := 1, n := 3, data := [1] }],
+      [[.created 0 1, .pubSubscribe 0, .send { ty := .requestChannel, sid := 1, n := 3, data := [1] }, .onSubscribe 0],
        [.send (mkError 1 cApplicationError)],
        [.send (mkRequestN 1 5)]] := by decide +kernel
 
